@@ -272,7 +272,7 @@ class Engine(ExprMixin, ExprMixin2, StmtMixin, LoopMixin, CallMixin, CompMixin, 
             env["exc"] = f.exc[1]
         saved, f.env, f.status = f.env, env, "run"
         try:
-            for i, cl in enumerate(c.ensures_raise.get(allowed, [])):
+            for i, cl in enumerate(list(c.ensures_raise.get(allowed, [])) + list(c.ensures_raise.get("*", []))):
                 goal = self.spec_eval(cl, f, None, old=entry, goal=True)
                 self.obligations.append(Obligation(f"{c.qual}:exc-post:{allowed}:{i}#path{j}", "exc", f.hyps(), goal, where=c.qual,
                                                    meta={"clause": cl, "trail": f.trail}))
@@ -285,31 +285,44 @@ class Engine(ExprMixin, ExprMixin2, StmtMixin, LoopMixin, CallMixin, CompMixin, 
         """every heap write of this path hits a location named in `modifies` or an object allocated by this call"""
         if c is None or "no-frame" in c.props:
             return
-        allowed = []      # (component, ref term or None)
+        allowed = []      # (component, ref term or None, condition callable or None)
         for m in c.modifies:
             allowed += self.footprint(m, f, entry)
         seen = set()
-        for comp, ref, _origin in f.writes[len(entry.writes):]:
-            if comp == "cls":
+        own_final = f.comp("list.nodeowned")
+        for comp, ref, _origin, wcond in f.writes[len(entry.writes):]:
+            if comp in ("cls",):
                 continue
-            key = (comp, ref.get_id() if ref is not None else None)
+            key = (comp, ref.get_id() if ref is not None else None, id(wcond))
             if key in seen:
                 continue
             seen.add(key)
-            if any(a[0] == comp and a[1] is None for a in allowed):
+            if any(a[0] == comp and a[1] is None and a[2] is None for a in allowed):
                 continue
-            if ref is None:
-                goal = z3.BoolVal(False)
+            if comp == "list.nodeowned":
+                # ghost flag: monotone; only objects this call allocated, or already node-owned ones, may be (re)flagged
+                if ref is None:
+                    goal = z3.BoolVal(False)
+                else:
+                    goal = z3.Or(ref >= entry.alloc_ptr(), z3.Select(entry.comp("list.nodeowned"), ref), z3.Select(own_final, ref))
+            elif ref is None:
+                # a wholesale havoc "except cond" (from a callee's frame): allowed when our own frame has the same exception
+                goal = z3.BoolVal(any(a[0] == comp and a[1] is None and a[2] is not None for a in allowed) and wcond is not None)
             else:
                 opts = [ref == a[1] for a in allowed if a[0] == comp and a[1] is not None]
+                opts += [z3.Not(a[2](ref)) for a in allowed if a[0] == comp and a[1] is None and a[2] is not None]
                 goal = z3.Or(opts + [ref >= entry.alloc_ptr()])
             self.obligations.append(Obligation(f"{c.qual}:frame:{comp}#path{j}", "frame", f.hyps(), goal, where=c.qual,
                                                meta={"clause": f"modifies {c.modifies}", "component": comp, "trail": f.trail}))
 
     def footprint(self, text, f, entry):
         text = text.strip()
+        if text.startswith("@") and ":" in text:
+            comp, _, flag = text[1:].partition(":")
+            own = f.comp("list.nodeowned")
+            return [(comp, None, lambda r, own=own: z3.Not(z3.Select(own, r)))]     # kept where not node-owned (final flags: monotone)
         if text.startswith("@"):
-            return [(text[1:], None)]
+            return [(text[1:], None, None)]
         saved_H = f.H
         f.H = dict(entry.H)      # footprints are evaluated in the pre-state
         try:
@@ -318,15 +331,15 @@ class Engine(ExprMixin, ExprMixin2, StmtMixin, LoopMixin, CallMixin, CompMixin, 
                 r = self.as_ref(v, f)
                 comps = {"list": ["list.items"], "tuple": ["list.items"], None: ["list.items"], "dict": ["dict.keys", "dict.map", "dict.has"],
                          "set": ["set.has", "set.card"], "bytearray": ["bytearray.data"]}.get(v.cls, [])
-                return [(cname, r) for cname in comps]
+                return [(cname, r, None) for cname in comps]
             node = self.parse_spec(text)
             o = self.spec_value(ast.unparse(node.value), f)
             if o.k == "module":
-                return [(f"module:{o.cls}.{node.attr}", o.t)]
+                return [(f"module:{o.cls}.{node.attr}", o.t, None)]
             ft = self.field_type(o.cls, node.attr) if o.cls else self.unique_field(node.attr)
             if ft is None and node.attr in self.ast_field_names:
                 ft = ("ast", "val")
-            return [(f"{ft[0]}.{node.attr}", self.as_ref(o, f))]
+            return [(f"{ft[0]}.{node.attr}", self.as_ref(o, f), None)]
         finally:
             for k, t in f.H.items():
                 saved_H.setdefault(k, t)
